@@ -218,6 +218,7 @@ int main(int argc, char **argv)
         if (mode == "emit") {
                 if (argc < 5)
                         return 2;
+                g_gen_thorough = arg(argc, argv, "--tier", "quick") == "thorough";
                 Plan p = gen_plan(argv[2], strtoull(argv[3], nullptr, 10), strtoull(argv[4], nullptr, 10), engine_qcap());
                 fputs(plan_print(p).c_str(), stdout);
                 return 0;
@@ -288,6 +289,7 @@ int main(int argc, char **argv)
         std::string tag = arg(argc, argv, "--tag", "w");
         uint64_t max_viol = strtoull(arg(argc, argv, "--max-viol", "3").c_str(), nullptr, 10);
         bool determinism = has_flag(argc, argv, "--twice");
+        g_gen_thorough = arg(argc, argv, "--tier", "quick") == "thorough";
         install_handlers();
 
         Agg agg;
